@@ -79,13 +79,21 @@ def tagged(x):
     return {'nan': [1, 0], 'inf': [2, 0], '-inf': [3, 0]}.get(x) or [0, int(x)]
 
 
+LAYOUT = ['C']     # memory layout of the arrays of 2 or more dimensions built by array_of: 'C', 'F' or 'T' (transposed view)
+
+
 def array_of(numbers, shape, dtype='float'):
     a = np.array([to_float(x) for x in numbers], dtype=float)
     if dtype == 'int' and np.all(np.isfinite(a)):
         a = a.astype(np.int64)
     if tuple(shape) == ():
         return a[0]
-    return a.reshape(tuple(shape))
+    a = a.reshape(tuple(shape))
+    if a.ndim >= 2 and LAYOUT[0] == 'F':
+        return np.asfortranarray(a)
+    if a.ndim >= 2 and LAYOUT[0] == 'T':
+        return np.ascontiguousarray(a.T).T          # same values and shape, non-contiguous memory
+    return a
 
 
 def normalise(x, nd, shape, nb):
@@ -237,6 +245,8 @@ def vkey(what, case, d=None, i=None, expected=None, obs=None):
     ndfc = 'ndf-none' if case['row'] == NORMAL_ROW else 'ndf-given'
     if case.get('scale', 1.0) != 1.0:
         ndfc += '/rescaled-%s' % ('tiny' if case['scale'] < 1 else 'huge')
+    if case.get('layout', 'C') != 'C':
+        ndfc += '/noncontiguous'
     if what == 'raises':
         return 'C05/raises/%s/%s' % (ndfc, 'scalar' if not case['shape'] else '%dd' % len(case['shape']))
     if what == 'pdec' and obs is not None and obs.get('pdec_form') != 'full':
@@ -331,11 +341,20 @@ def _replay_blocks(blocks):
         # common positive rescaling by exact powers of two (tiny and huge magnitudes): same expected outcome
         variants.append((shapes_for(nb)[-1], 'float', 2.0 ** -40))
         variants.append((shapes_for(nb)[0], 'float', 2.0 ** 40))
+        multi = [sh for sh in shapes_for(nb) if len(sh) >= 2 and min(sh) >= 1 and int(np.prod(sh)) > 1]
+        if multi:
+            variants.append((multi[-1], 'float', -1.0))       # marker: the same arrays as transposed (non-contiguous) views
         for k, (shape, dtype, scale) in enumerate(variants):
             case = case_of_state(st, shape, dtype)
-            if scale != 1.0:
+            if scale == -1.0:
+                case['layout'] = 'T'
+            elif scale != 1.0:
                 case['scale'] = scale
-            obs, problem = observe(case)
+            LAYOUT[0] = case.get('layout', 'C')
+            try:
+                obs, problem = observe(case)
+            finally:
+                LAYOUT[0] = 'C'
             res['evals'] += 1
             if problem:
                 res['bad'].append((vkey('raises', case), problem, case))
@@ -637,7 +656,11 @@ def _code_to_spec(ctx, wd):
 
 def replay_case(case):
     """Run one case on the implementation and let TLC (StudentTrace.tla) judge it."""
-    obs, problem = observe(case, with_meta=True)
+    LAYOUT[0] = case.get('layout', 'C')
+    try:
+        obs, problem = observe(case, with_meta=True)
+    finally:
+        LAYOUT[0] = 'C'
     if problem:
         return False, problem
     wd = tlc.workdir('c05r')
